@@ -50,6 +50,9 @@ func compilerUnproven(repo string, goarch string, pkgs []string) (map[string]str
 	if goarch != "" {
 		env = append(env, "GOARCH="+goarch)
 	}
+	if gProg != nil && gProg.GOOS != "" {
+		env = append(env, "GOOS="+gProg.GOOS)
+	}
 	cmd.Env = env
 	var out bytes.Buffer
 	cmd.Stdout = &out
